@@ -385,9 +385,9 @@ SPELL = ['tuple', 'list', 'dotted']
 
 
 PLAN = {
-    'quick': [('T3', 'U2', ['none', 'x']), ('T2', 'UX', ['none', 'None', 'None,1', 'None,2']), ('TC2', 'UC2', ['none', 'x'])],
-    'thorough': [('T3', 'U3', ['none', 'None', 'None,1', 'x']), ('T4only', 'U2', ['none', 'x']), ('T3', 'UX', ['none', 'None', 'None,1', 'None,2']),
-                 ('TC3', 'UC2', ['none', 'x']), ('TC2', 'UX', ['None', 'None,1'])],
+    'quick': [('T3', 'U2', ['none']), ('T2', 'UX', ['None', 'None,1', 'None,2']), ('TC2', 'UC2', ['none', 'x'])],
+    'thorough': [('T3', 'U3', ['none', 'None,1', 'x']), ('T4only', 'U2', ['none', 'x']), ('T3', 'UX', ['none', 'None', 'None,1', 'None,2']),
+                 ('TC3', 'UC2', ['none']), ('TC2', 'UX', ['None', 'None,1'])],
 }
 
 
@@ -396,6 +396,19 @@ def gen_pairs(tier):
     for tf, uf, igs in PLAN[tier]:
         for t in family(tf):
             yield {'t': t, 'us': uf, 'ign': igs}
+
+
+FAMDESC = {
+    'T3': 'T3 (<=3 leaves, keys ab, depth<=3, leaves 1/None)', 'T2': 'T2 (as T3, <=2 leaves)', 'T4only': 'T4 (as T3, exactly 4 leaves)',
+    'U3': 'U3 (<=3 leaves, keys ab, depth<=3, leaves 2/x)', 'U2': 'U2 (as U3, <=2 leaves)',
+    'UX': 'UX (<=2 leaves, keys ab, depth<=3, leaves None/1/2 with at least one None or 1)',
+    'TC2': 'TC2 (<=2 leaves, keys abc, depth<=2, leaves 1/None/[1,2])', 'TC3': 'TC3 (as TC2, depth<=3)', 'UC2': 'UC2 (<=2 leaves, keys abc, depth<=2, leaves 2/x)',
+}
+
+
+def plan_text(tier):
+    return '; '.join('%s=%d x %s=%d x ignore in {%s}' % (FAMDESC[tf], len(family(tf)), FAMDESC[uf], len(family(uf)), ', '.join(repr(IGN[i]) for i in igs))
+                     for tf, uf, igs in PLAN[tier])
 
 
 def pairs_count(tier):
@@ -428,6 +441,7 @@ def check_pairs(case):
     for ui, uitems in enumerate(us):
         mu = build(uitems)
         first = True
+        ureal = {}          # layout -> (u, snapshot): one u object per layout serves every call of this pair (verified after each, rebuilt if it changed)
         for iname, ignore in ignores:
             out.sub()
             flags = set()
@@ -446,8 +460,10 @@ def check_pairs(case):
                 if ignore is not None and op == 'Dict+':
                     continue
                 t, tsnap = ts[tk]
-                u = build(uitems, *ulayouts[uk])
-                usnap = snapshot(u)
+                if uk not in ureal:
+                    u = build(uitems, *ulayouts[uk])
+                    ureal[uk] = (u, snapshot(u))
+                u, usnap = ureal[uk]
                 label = lambda: '%s(t=%s %s, u=%s %s, ignore=%r)' % (op, layouts[tk][0].__name__, tshow, ulayouts[uk][0].__name__, show(mu, 200), ignore)
                 try:
                     if op == 'tree_update':
@@ -460,12 +476,14 @@ def check_pairs(case):
                 except Exception as e:
                     out.viol('raised', '%s raised %s: %s' % (label(), type(e).__name__, e), op=op, exc=type(e).__name__, u=uk)
                     fresh_t(tk)
+                    del ureal[uk]
                     continue
                 if not isinstance(r, dict) or plain(r) != expect:
                     out.viol('merge-differs', '%s = %s, expected %s' % (label(), show(plain(r)), show(expect)), op=op, cls=c.rstrip('+'))
                 if _mutated(out, tsnap, 't', op, label):
                     fresh_t(tk)
-                _mutated(out, usnap, 'u', op, label)
+                if _mutated(out, usnap, 'u', op, label):
+                    del ureal[uk]
             # tree_setitem on a copy, single-path updates only
             if len(uitems) == 1:
                 path, value = uitems[0][:-1], uitems[0][-1]
@@ -498,12 +516,12 @@ def chain_shapes():
 
 
 def gen_chains(tier):
+    """quick: length 2 in the dict layout; thorough: length 2 in all three layouts, length 3 (w = the single-path shapes) in the dict layout"""
     S = chain_shapes()
-    depth = 2 if tier == 'quick' else 3
-    for kind in CHAIN_LAYOUT:
+    for kind in (['dict'] if tier == 'quick' else list(CHAIN_LAYOUT)):
         for ti in range(len(S)):
             for ui in range(len(S)):
-                yield {'t': [list(p) for p in S[ti]], 'u': [list(p) for p in S[ui]], 'kind': kind, 'depth': depth if kind == 'dict' else 2}
+                yield {'t': [list(p) for p in S[ti]], 'u': [list(p) for p in S[ui]], 'kind': kind, 'depth': 3 if (kind == 'dict' and tier != 'quick') else 2}
 
 
 def _with_leaf(shape, leaf):
@@ -524,13 +542,10 @@ def check_chain(case):
     kept = [('t', snapshot(t), t, mt), ('u', snapshot(u), u, mu)]       # (name, snapshot, object, model): everything built so far stays alive and is re-inspected
 
     def verify(label, op):
-        """every kept operand / earlier result: identity+content snapshot and equality with its model"""
+        """every kept operand / earlier result against its identity+content snapshot (taken when it equalled its model)"""
         bad = False
         for name, snap, obj, model in kept:
-            if _mutated(out, snap, name, op, label):
-                bad = True
-            elif plain(obj) != model:
-                out.viol('operand-mutated', '%s: %s no longer equals its model %s: %s' % (label(), name, show(model), show(plain(obj))), op=op, operand=name, depth=2)
+            if _mutated(out, snap, name, op, label):        # complete: every branch object by identity and content (there are no list leaves here)
                 bad = True
         return bad
 
@@ -576,6 +591,8 @@ def check_chain(case):
             if r2 is not None and depth >= 3 and dirn == 'L':
                 kept.append(('r2', snapshot(r2), r2, m2))
                 for wi, wshape in enumerate(S):
+                    if len(wshape) > 1:
+                        continue
                     witems = _with_leaf(wshape, CHAIN_LEAF['w'])
                     mw = build(witems)
                     w = build(witems, *types[ok])
@@ -616,7 +633,7 @@ def gen_tables(tier):
         if tier != 'quick' and nkeys >= 3:
             keytuples = [kt for kt in keytuples if kt.count('c') <= 1]
         for n in range(0, maxrows + 1):
-            for kts in itertools.permutations(keytuples, n):
+            for kts in (itertools.combinations(keytuples, n) if (tier == 'quick' and n == 3) else itertools.permutations(keytuples, n)):
                 for leaves in (itertools.product(LEAFCELLS, repeat=n) if leaf_wild else [None]):
                     rows = [list(kt) + ([leaves[i]] if leaf_wild else []) for i, kt in enumerate(kts)]
                     yield {'pattern': pattern, 'rows': rows}
@@ -755,22 +772,18 @@ def suites(tier, seed):
               rule='all pairs (t, u) x ignore lists: %s; per (pair, ignore): tree_update, items_to_tree(tree_items(u), tree=t), Dict + dict (once per pair), '
                    'tree_setitem on a copy for 1-leaf u (3 key spellings), a non-library dict subclass as root of u for every third u; recursive merge model; '
                    'identity+content snapshots of every branch of t and u after every call; non-trivial = t and u share a first key (counted per pair in '
-                   'u-families <= 700, per (t, outcome class) in the larger ones); %d (pair, ignore) combinations'
-                   % ('T3(1640: <=3 leaves, keys ab, depth<=3, leaves 1/None) x U2(312: <=2 leaves, leaves 2/x) x {None,[x]}; T2(312) x UX(596: <=2 leaves over '
-                      'None/1/2 with a None or 1) x {None,[None],[None,1],[None,2]}; TC2(549: keys abc, depth<=2, <=2 leaves, leaves 1/None/[1,2]) x UC2(252) x {None,[x]}'
-                      if quick else
-                      'T3(1640) x U3(1640) x {None,[None],[None,1],[x]}; T4only(3312 4-leaf trees) x U2(312) x {None,[x]}; T3 x UX(596) x {None,[None],[None,1],[None,2]}; '
-                      'TC3(6219: keys abc, depth<=3, <=2 leaves, leaves 1/None/[1,2]) x UC2(252) x {None,[x]}; TC2(549) x UX x {[None],[None,1]}', pairs_count(tier)),
+                   'u-families <= 700, per (t, outcome class) in the larger ones); %d (pair, ignore) combinations' % (plan_text(tier), pairs_count(tier)),
               bounds=dict(max_leaves_t=3 if quick else 4, max_leaves_u=2 if quick else 3, max_depth=3, ignore_lists=5, pair_ignore_combinations=pairs_count(tier))),
         Suite('update_chains', lambda: gen_chains(tier), check_chain,
               rule='all chains over the %d shapes with <= 2 leaves (keys ab, depth <= 3; leaves t:1 u:2 v:x w:3): r1 = tree_update(t,u); r2 = tree_update(r1,v) and '
-                   'tree_update(v,r1)%s in 3 type layouts (depth 3 in the dict layout); after every call every kept operand and earlier result is compared with its '
-                   'identity+content snapshot and with its model; non-trivial = every step of the chain overlaps' % (nS, '' if quick else '; r3 = tree_update(r2,w)'),
-              bounds=dict(shapes=nS, chain_length=2 if quick else 3, layouts=3)),
+                   'tree_update(v,r1) %s; after every call every kept operand and earlier result (t, u, v, w, r1, r2) is compared with its identity+content '
+                   'snapshot; non-trivial = every step of the chain overlaps'
+                   % (nS, 'in the dict layout' if quick else 'in 3 type layouts; in the dict layout also r3 = tree_update(r2,w) for every single-path w'),
+              bounds=dict(shapes=nS, chain_length=2 if quick else 3, layouts=1 if quick else 3)),
         Suite('table_tree', lambda: gen_tables(tier), check_table,
-              rule='%d patterns with 1..4 wildcards x all ordered tables of 0..3 rows with pairwise different paths (key cells %s, leaf cells 1/None/x) x base trees '
+              rule='%d patterns with 1..4 wildcards x all tables of 0..3 rows (%s) with pairwise different paths (key cells %s, leaf cells 1/None/x) x base trees '
                    '(none, empty, overlapping rows, unrelated, a leaf where the pattern needs a branch at every depth, a branch where it puts a leaf) x table '
                    'spellings (dictable, list of dicts, a single dict): table_to_tree == merge model, base untouched, tree_to_table and dictable(tree, pattern) '
-                   'return the rows as a multiset; non-trivial = the table overlaps the base tree' % (len(PATTERNS), 'a/b' if quick else 'a/b/c (<= one c with 3+ key columns)'),
+                   'return the rows as a multiset; non-trivial = the table overlaps the base tree' % (len(PATTERNS), 'every row order; 3-row tables in one order' if quick else 'every row order', 'a/b' if quick else 'a/b/c (<= one c with 3+ key columns)'),
               bounds=dict(patterns=len(PATTERNS), max_rows=3, key_cells=2 if quick else 3, leaf_cells=3)),
     ]
